@@ -245,11 +245,10 @@ func (vc *VC) chanRecv(fr *Frame, ch ssa.Value, commaOk bool, pos token.Pos) SV 
 	return vc.eng.chanRecv(vc, fr, ch, commaOk, pos)
 }
 
-func (vc *VC) chanClose(fr *Frame, ref string) {}
+func (vc *VC) chanClose(fr *Frame, ref string) { vc.chanCloseImpl(ref) }
 
 func (vc *VC) chanLen(ref string) string {
-	vc.declareUF("chanlen", "(Int) (_ BitVec 64)")
-	return "(chanlen " + ref + ")"
+	return "(bvsub " + vc.chTail(ref) + " " + vc.chHead(ref) + ")"
 }
 
 func (vc *VC) selectStmt(fr *Frame, x *ssa.Select) SV {
